@@ -3282,7 +3282,7 @@ impl<'a, R: FileManager> FrontendCtx<'a, R> {
             (
                 RuntypeKind::Object {
                     vs,
-                    indexed_properties: _,
+                    indexed_properties,
                 },
                 other,
             ) => {
@@ -3299,6 +3299,20 @@ impl<'a, R: FileManager> FrontendCtx<'a, R> {
                             let v = vs.get(&s);
                             if let Some(v) = v {
                                 match v {
+                                    Optionality::Optional(o) => {
+                                        acc.push(Runtype::any_of(vec![o.clone(), Runtype::null()]))
+                                    }
+                                    Optionality::Required(r) => {
+                                        acc.push(r.clone());
+                                    }
+                                }
+                            } else if let Some(ip) = indexed_properties {
+                                // a key that no property declares is covered by a string index signature;
+                                // other key types are left to the semantic computation
+                                if ip.key != Runtype::string() {
+                                    return Ok(None);
+                                }
+                                match &ip.value {
                                     Optionality::Optional(o) => {
                                         acc.push(Runtype::any_of(vec![o.clone(), Runtype::null()]))
                                     }
